@@ -118,4 +118,204 @@ theorem showNat_length {n s : Nat} (hs : 1 ≤ s) (h : n < 10 ^ s) : (showNat n)
       have := ih (n / 10) (by omega) (s := t) (by omega) this
       simp; omega
 
+/-! ## scanners on digit texts -/
+
+theorem digitRun_digits (ds : Str) (hd : AllDig ds) (rest : Str)
+    (hr : ∀ c r, rest = c :: r → isDigit c = false ∧ c ≠ 95) (b : Bool) (acc : List Nat) :
+    digitRun (ds ++ rest) b acc = (acc.reverse ++ ds.map (· - 48), rest) := by
+  induction ds generalizing b acc with
+  | nil =>
+    cases rest with
+    | nil => simp [digitRun]
+    | cons c r =>
+      obtain ⟨h1, h2⟩ := hr c r rfl
+      simp [digitRun, h1, h2]
+  | cons d ds ih =>
+    obtain ⟨h1, h2⟩ := allDig_cons.1 hd
+    simp [digitRun, h1, ih h2]
+
+theorem spanP_digits (ds : Str) (hd : AllDig ds) (rest : Str)
+    (hr : ∀ c r, rest = c :: r → isDigit c = false) : spanP isDigit (ds ++ rest) = (ds, rest) := by
+  induction ds with
+  | nil =>
+    cases rest with
+    | nil => simp [spanP]
+    | cons c r => simp [spanP, hr c r rfl]
+  | cons d ds ih =>
+    obtain ⟨h1, h2⟩ := allDig_cons.1 hd
+    simp [spanP, h1, ih h2]
+
+theorem stripL_id (s : Str) (h : ∀ c r, s = c :: r → isWs c = false) : stripL s = s := by
+  cases s with
+  | nil => rfl
+  | cons c r => simp [stripL, h c r rfl]
+
+theorem strip_id (s : Str) (h : ∀ c ∈ s, isWs c = false) : strip s = s := by
+  unfold strip
+  rw [stripL_id s (fun c r e => h c (by simp [e])), stripL_id, List.reverse_reverse]
+  intro c r e
+  apply h c
+  have : c ∈ s.reverse := by simp [e]
+  simpa using this
+
+theorem digit_not_ws {c : Nat} (h : isDigit c = true) : isWs c = false := by
+  simp [isDigit] at h
+  simp [isWs]; omega
+
+/-! ## number texts: `-? digits` and `-? digits . digits` -/
+
+def signTxt (neg : Bool) : Str := if neg then [45] else []
+def signVal (neg : Bool) : Int := if neg then -1 else 1
+
+theorem signOf_signTxt (neg : Bool) (c : Nat) (t : Str) (hc : isDigit c = true) :
+    signOf (signTxt neg ++ c :: t) = (signVal neg, c :: t) := by
+  simp [isDigit] at hc
+  cases neg
+  · simp only [signTxt, signVal, Bool.false_eq_true, if_false, List.nil_append]
+    unfold signOf
+    split
+    · rename_i h; simp at h; omega
+    · rename_i h; simp at h; omega
+    · rfl
+  · simp [signTxt, signVal, signOf]
+
+theorem not_special (c : Nat) (t : Str) (hc : isDigit c = true) :
+    (lower (c :: t) == str% "inf" || lower (c :: t) == str% "infinity" || lower (c :: t) == str% "nan") = false := by
+  simp [isDigit] at hc
+  have e : toLowerC c = c := by
+    simp [toLowerC, isUpper]; omega
+  simp [lower, e]
+  omega
+
+/-- the characters a printed number consists of -/
+def NumChars (s : Str) : Prop := ∀ c ∈ s, (isDigit c || c == 45 || c == 46) = true
+
+theorem numChars_append {a b : Str} : NumChars (a ++ b) ↔ NumChars a ∧ NumChars b := by
+  simp only [NumChars, List.mem_append]
+  constructor
+  · intro h; exact ⟨fun c hc => h c (Or.inl hc), fun c hc => h c (Or.inr hc)⟩
+  · rintro ⟨h1, h2⟩ c (hc | hc)
+    · exact h1 c hc
+    · exact h2 c hc
+
+theorem numChars_of_allDig {a : Str} (h : AllDig a) : NumChars a := by
+  intro c hc; simp [h c hc]
+
+theorem numChars_signTxt (neg : Bool) : NumChars (signTxt neg) := by
+  cases neg <;> simp [signTxt, NumChars]
+
+theorem numChars_intTxt (neg : Bool) (D1 : Str) (hd : AllDig D1) : NumChars (signTxt neg ++ D1) :=
+  numChars_append.2 ⟨numChars_signTxt neg, numChars_of_allDig hd⟩
+
+theorem numChars_floatTxt (neg : Bool) (D1 D2 : Str) (h1 : AllDig D1) (h2 : AllDig D2) :
+    NumChars (signTxt neg ++ D1 ++ 46 :: D2) := by
+  refine numChars_append.2 ⟨numChars_intTxt neg D1 h1, ?_⟩
+  intro c hc
+  rcases List.mem_cons.1 hc with rfl | hc
+  · simp
+  · simp [h2 c hc]
+
+theorem strip_numChars {s : Str} (h : NumChars s) : strip s = s := by
+  apply strip_id
+  intro c hc
+  have := h c hc
+  simp [isDigit] at this
+  simp [isWs]; omega
+
+theorem parseInt_intTxt (neg : Bool) (D1 : Str) (hd : AllDig D1) (hne : D1 ≠ []) :
+    parseInt (signTxt neg ++ D1) = some (signVal neg * (valOf D1 : Int)) := by
+  obtain ⟨c, t, rfl⟩ := List.exists_cons_of_ne_nil hne
+  have hc := (allDig_cons.1 hd).1
+  have hrun := digitRun_digits (c :: t) hd [] (by simp) false []
+  rw [List.append_nil] at hrun
+  unfold parseInt
+  rw [strip_numChars (numChars_intTxt neg _ hd), signOf_signTxt _ _ _ hc]
+  simp only [hrun]
+  simp [valOf]
+
+theorem parseInt_floatTxt (neg : Bool) (D1 D2 : Str) (hd : AllDig D1) (hd2 : AllDig D2) (hne : D1 ≠ []) :
+    parseInt (signTxt neg ++ D1 ++ 46 :: D2) = none := by
+  obtain ⟨c, t, rfl⟩ := List.exists_cons_of_ne_nil hne
+  have hc := (allDig_cons.1 hd).1
+  have hrun := digitRun_digits (c :: t) hd (46 :: D2) (by simp [isDigit]) false []
+  unfold parseInt
+  rw [strip_numChars (numChars_floatTxt neg _ _ hd hd2), List.append_assoc, List.cons_append, signOf_signTxt _ _ _ hc]
+  rw [List.cons_append] at hrun
+  simp only [hrun]
+  simp
+
+theorem parseFloat_intTxt (neg : Bool) (D1 : Str) (hd : AllDig D1) (hne : D1 ≠ []) :
+    parseFloat (signTxt neg ++ D1) = .val ((signVal neg : Rat) * ((valOf D1 : Nat) : Rat)) := by
+  obtain ⟨c, t, rfl⟩ := List.exists_cons_of_ne_nil hne
+  have hc := (allDig_cons.1 hd).1
+  have hrun := digitRun_digits (c :: t) hd [] (by simp) false []
+  rw [List.append_nil] at hrun
+  unfold parseFloat
+  rw [strip_numChars (numChars_intTxt neg _ hd), signOf_signTxt _ _ _ hc]
+  simp only [not_special c t hc, hrun]
+  simp [valOf]
+
+theorem parseFloat_floatTxt (neg : Bool) (D1 D2 : Str) (hd : AllDig D1) (hd2 : AllDig D2) (hne : D1 ≠ []) :
+    parseFloat (signTxt neg ++ D1 ++ 46 :: D2)
+      = .val ((signVal neg : Rat) * (((valOf (D1 ++ D2) : Nat) : Rat) / ((10 ^ D2.length : Nat) : Rat))) := by
+  obtain ⟨c, t, rfl⟩ := List.exists_cons_of_ne_nil hne
+  have hc := (allDig_cons.1 hd).1
+  have hrun := digitRun_digits (c :: t) hd (46 :: D2) (by simp [isDigit]) false []
+  have hrun2 := digitRun_digits D2 hd2 [] (by simp) false []
+  rw [List.append_nil] at hrun2
+  rw [List.cons_append] at hrun
+  unfold parseFloat
+  rw [strip_numChars (numChars_floatTxt neg _ _ hd hd2), List.append_assoc, List.cons_append,
+    signOf_signTxt _ _ _ hc]
+  simp only [not_special c _ hc, hrun, hrun2]
+  simp [valOf]
+
+/-- `countStr` after the optional sign -/
+def countTail (s1 : Str) : Str :=
+  let (d1, s2) := spanP isDigit s1
+  let (dot, s3) := match s2 with
+    | 46 :: t => ([46], t)
+    | t => ([], t)
+  let (d2, _) := spanP isDigit s3
+  d1 ++ dot ++ d2
+
+theorem countStr_neg (t : Str) : countStr (45 :: t) = 45 :: countTail t := by
+  simp [countStr, countTail]
+  rfl
+
+theorem countStr_pos (c : Nat) (t : Str) (hc : c ≠ 45) : countStr (c :: t) = countTail (c :: t) := by
+  unfold countStr countTail
+  split
+  rename_i heq
+  split at heq
+  · rename_i h; simp at h; omega
+  · cases heq
+    simp
+    rfl
+
+theorem countStr_signTxt (neg : Bool) (c : Nat) (t : Str) (hc : isDigit c = true) :
+    countStr (signTxt neg ++ c :: t) = signTxt neg ++ countTail (c :: t) := by
+  simp [isDigit] at hc
+  cases neg
+  · simp only [signTxt, Bool.false_eq_true, if_false, List.nil_append]
+    exact countStr_pos c t (by omega)
+  · simp only [signTxt, if_true]
+    exact countStr_neg _
+
+theorem countTail_int (D1 rest : Str) (hd : AllDig D1)
+    (hr : ∀ c r, rest = c :: r → (isDigit c || c == 46) = false) : countTail (D1 ++ rest) = D1 := by
+  have h1 : ∀ c r, rest = c :: r → isDigit c = false := by
+    intro c r e; have := hr c r e; simp at this; simp [this.1]
+  unfold countTail
+  rw [spanP_digits D1 hd rest h1]
+  cases rest with
+  | nil => simp [spanP]
+  | cons c r =>
+    have := hr c r rfl
+    simp at this
+    simp only
+    split
+    · rename_i h; simp at h; omega
+    · simp [spanP, h1 c r rfl]
+
 end Formula
